@@ -175,9 +175,36 @@ where
                 Call::Rebuild => {
                     let keep = b.clone();
                     match b.build() {
-                        Ok(p) => p.into_builder(),
+                        Ok(p) => {
+                            let _ = p.to_string();
+                            p.into_builder()
+                        },
                         Err(_) => keep,
                     }
+                },
+                Call::PartsQualIndexMut(k, v) => {
+                    if b.parts.qualifiers.contains_key(k.as_str()) {
+                        b.parts.qualifiers[k.as_str()] = v.as_str().into();
+                    }
+                    b
+                },
+                Call::PartsQualGetMut(k, v) => {
+                    if let Some(x) = b.parts.qualifiers.get_mut(k.as_str()) {
+                        *x = v.as_str().into();
+                    }
+                    b
+                },
+                Call::PartsQualIterMutAppend(sfx) => {
+                    for (_, x) in b.parts.qualifiers.iter_mut() {
+                        x.push_str(sfx);
+                    }
+                    b
+                },
+                Call::PartsQualEntry(k, v) => {
+                    if let Ok(e) = b.parts.qualifiers.entry(k.as_str()) {
+                        e.and_modify(|x| x.push_str(v)).or_insert(v.as_str());
+                    }
+                    b
                 },
                 Call::PartsQualsFromIter(pairs) => {
                     if let Ok(q) = purl::Qualifiers::try_from_iter(pairs.iter().map(|(k, v)| (k.as_str(), v.as_str()))) {
